@@ -57,6 +57,7 @@ type StepOut struct {
 	Err   string `json:"err,omitempty"`
 	Panic string `json:"panic,omitempty"`
 	Inval bool   `json:"-"` // the harness could not even address the call (e.g. path not resolvable)
+	Seen  string `json:"-"` // inside a transaction body: the whole value as the body reads it after this call
 }
 
 // World is the explicit state of an E1 execution.
@@ -661,7 +662,7 @@ func (w *World) Local(a pt.Action) StepOut {
 		for _, s := range a.Sub {
 			o := w.call(r, t, s)
 			// the body looks at what it has done so far (apply, inspect, decide): reads inside a transaction
-			o.Ret += " | sees " + readInTx(t)
+			o.Seen = readInTx(t)
 			subs = append(subs, o)
 			if o.Panic != "" {
 				panic("inner: " + o.Panic)
